@@ -437,6 +437,42 @@ __CPROVER_ensures(__CPROVER_return_value >= self->min_seg && __CPROVER_return_va
 __CPROVER_ensures(__CPROVER_return_value <= self->max_seg ==> RD_IN(self, __CPROVER_return_value, rd))
 __CPROVER_ensures((SEG_OK(self, g_s) && RD_IN(self, g_s, rd)) ==> __CPROVER_return_value == g_s)
 ;
+/* ---- "check min,max ring diff": the constructor swaps a reversed interval, initialise_ring_diff_arrays reports one as an error ----
+   (the part of the class invariant PDI2_VALID that says RDMIN <= RDMAX for every segment; ghost segment g_s) */
+static inline short* K_segvec_ptr(short* a, const struct PDI2* self, int seg)
+{
+  __CPROVER_assert(seg >= self->min_seg && seg <= self->max_seg, "per-segment vector indexed inside [min_segment,max_segment]");
+  return &a[seg - self->min_seg];
+}
+#define SEGP(self, field, seg) K_segvec_ptr((self)->field, self, seg)
+static inline void K_swap_short(short* a, short* b) { const short t = *a; *a = *b; *b = t; }
+#define SEG_RANGE_OK(p) ((p)->min_seg <= (p)->max_seg && (p)->min_seg > -1000 && (p)->max_seg < 1000 && (p)->max_seg - (p)->min_seg < MAXSEGS)
+#define CONTRACT_K_pdic_ctor_swap                                                                                    \
+  __CPROVER_requires(__CPROVER_is_fresh(self, sizeof(*self)) && SEG_RANGE_OK(self) && g_s > -100000 && g_s < 100000)   \
+  __CPROVER_requires(SEG_OK(self, g_s) ==> (g_old_min == RDMIN(self, g_s) && g_old_max == RDMAX(self, g_s)))           \
+  __CPROVER_assigns(__CPROVER_object_whole(self))                                                                      \
+  __CPROVER_ensures(self->min_seg == __CPROVER_old(self->min_seg) && self->max_seg == __CPROVER_old(self->max_seg))    \
+  __CPROVER_ensures(SEG_OK(self, g_s) ==> (RDMIN(self, g_s) <= RDMAX(self, g_s)                                        \
+                                           && ((RDMIN(self, g_s) == g_old_min && RDMAX(self, g_s) == g_old_max) || (RDMIN(self, g_s) == g_old_max && RDMAX(self, g_s) == g_old_min))))
+int g_old_min, g_old_max; /* ghost: the interval ends of segment g_s on entry */
+#define LC_K_pdic_ctor_swap_0                                                                                        \
+  __CPROVER_assigns(segment_num, __CPROVER_object_whole(self))                                                         \
+  __CPROVER_loop_invariant(SEG_RANGE_OK(self) && self->min_seg == __CPROVER_loop_entry(self->min_seg) && self->max_seg == __CPROVER_loop_entry(self->max_seg)) \
+  __CPROVER_loop_invariant(segment_num >= self->min_seg && segment_num <= self->max_seg + 1)                           \
+  __CPROVER_loop_invariant(SEG_OK(self, g_s) ==> (g_s < segment_num ? (RDMIN(self, g_s) <= RDMAX(self, g_s)           \
+                                                       && ((RDMIN(self, g_s) == g_old_min && RDMAX(self, g_s) == g_old_max) || (RDMIN(self, g_s) == g_old_max && RDMAX(self, g_s) == g_old_min))) \
+                                                                    : (RDMIN(self, g_s) == g_old_min && RDMAX(self, g_s) == g_old_max))) \
+  __CPROVER_decreases(self->max_seg + 1 - segment_num)
+#define CONTRACT_K_rda_check                                                                                         \
+  __CPROVER_requires(__CPROVER_is_fresh(self, sizeof(*self)) && SEG_RANGE_OK(self) && g_error == 0)                    \
+  __CPROVER_assigns(g_error)                                                                                           \
+  __CPROVER_ensures((SEG_OK(self, g_s) && RDMIN(self, g_s) > RDMAX(self, g_s)) ==> g_error)
+#define LC_K_rda_check_0                                                                                             \
+  __CPROVER_assigns(segment_num, g_error)                                                                              \
+  __CPROVER_loop_invariant(segment_num >= self->min_seg && segment_num <= self->max_seg + 1 && g_error == 0)           \
+  __CPROVER_loop_invariant((SEG_OK(self, g_s) && g_s < segment_num) ==> RDMIN(self, g_s) <= RDMAX(self, g_s))          \
+  __CPROVER_decreases(self->max_seg + 1 - segment_num)
+
 /* ---- the block of initialise_ring_diff_arrays that FILLS ring_diff_to_segment_num (statement kernel) ----
    The table is projected onto the ghost ring difference g_rd: g_tab = its entry, [g_tab_lo, g_tab_hi] the allocated range.
    Postcondition = the reader contract RD2SEG_READ above (which the ring-pair kernels use): the entry is a segment whose
